@@ -5,8 +5,8 @@ package main
 // function+site, so the order of sites does not matter).
 
 import (
-	"go/constant"
 	"fmt"
+	"go/constant"
 	"go/types"
 	"sort"
 	"strings"
